@@ -40,6 +40,14 @@ class Cancel(BaseException):
     """Thrown by the driver to cancel a task (unique object per injection)."""
 
 
+class FalsyCancel(Cancel):
+    """A cancellation whose exception OBJECT tests false (an exception class that is also a sized collection - of
+    sub-errors, of pending jobs - and currently empty): an exception like any other; only ``is None`` tells "no exception"."""
+
+    def __len__(self) -> int:
+        return 0
+
+
 class Poke(BaseException):
     """Thrown by the driver at a probe which absorbs it and continues (C17)."""
 
@@ -317,7 +325,8 @@ class Driver:
                 task.started = True
                 surfaced = task.coro.send(None)
             elif task.cancel_at is not None and task.resumes == task.cancel_at and task.cancel_exc is None:
-                task.cancel_exc = Cancel()
+                # (every other cancellation OBJECT tests false: an exception like any other)
+                task.cancel_exc = (FalsyCancel if (self.steps + task.resumes) % 2 else Cancel)()
                 task.cancelled_at_owner = task.token.owner if task.token is not None else None
                 ctx.expect = (task.token, task.cancel_exc)
                 surfaced = task.coro.throw(task.cancel_exc)
